@@ -312,7 +312,7 @@ func c01forward(c *Ctx) {
 			}
 			for _, cs := range engine.Calls(g) {
 				cc := cs.Common()
-				if !(cc.IsInvoke() && cc.Method.Name() == "handle") || cs.Instr.Parent() != g {
+				if !(cc.IsInvoke() && engine.MethodName(cc.Method) == "handle") || cs.Instr.Parent() != g {
 					continue
 				}
 				call := cs.Instr.(*ssa.Call)
